@@ -163,8 +163,13 @@ def run_tlc(job, workdir, timeout=3600, workers=1, heap="3g"):
         if p.returncode == 124:
             err = "TLC timed out after %ds" % timeout
         else:
-            keep = [l for l in tail if l and not l.startswith("Linting") and not l.startswith("Parsing") and not l.startswith("Semantic")]
-            err = "TLC exit %d: %s" % (p.returncode, " | ".join(keep[-25:]))
+            keep = []
+            for k, l in enumerate(tail):
+                if l.startswith("Error:") or "rror" in l[:40]:
+                    keep += [x[:300] for x in tail[k:k + 3]]
+            if not keep:
+                keep = [l[:300] for l in tail if l and not l.startswith(("Linting", "Parsing", "Semantic"))][-8:]
+            err = "TLC exit %d: %s" % (p.returncode, " | ".join(keep[:12]))
     shutil.rmtree(os.path.join(d, "meta"), ignore_errors=True)
     return {"job": job.name, "states": states, "distinct": distinct, "ok": ok, "err": err, "out": out, "wall": wall,
             "dir": d}
